@@ -1230,6 +1230,9 @@ using E7 = cnl::elastic_integer<7>;
 using E31 = cnl::elastic_integer<31>;
 using OVN = cnl::overflow_integer<int>;
 using RND = cnl::rounding_integer<int>;
+using E7N8 = cnl::elastic_integer<7, std::int8_t>;  // representations of character type: text must still be a numeral
+using OVU8 = cnl::overflow_integer<std::uint8_t>;
+using W7C = cnl::wide_integer<7, signed char>;
 using W100 = cnl::wide_integer<100>;
 using W200 = cnl::wide_integer<200>;
 using W100U = cnl::wide_integer<100, unsigned>;
